@@ -839,7 +839,7 @@ def _check_database_structure(conn: sqlite3.Connection):
     """
     cursor = conn.cursor()
 
-    cursor.execute("BEGIN TRANSACTION;")
+    cursor.execute("BEGIN IMMEDIATE TRANSACTION;")
     cursor.execute("SELECT name FROM sqlite_master WHERE type='table' AND name='models'")
     table_exists = cursor.fetchone()
     table_correct = False
@@ -880,7 +880,7 @@ def _check_database_structure(conn: sqlite3.Connection):
 
     # For metadata we check if the table layout is correct, but also whether
     # the metadata keys exist.
-    cursor.execute("BEGIN TRANSACTION;")
+    cursor.execute("BEGIN IMMEDIATE TRANSACTION;")
     cursor.execute("SELECT name FROM sqlite_master WHERE type='table' AND name='metadata'")
     metadata_table_exists = cursor.fetchone()
     metadata_table_correct = False
@@ -914,7 +914,7 @@ def _check_database_structure(conn: sqlite3.Connection):
         )
     conn.commit()
 
-    cursor.execute("BEGIN TRANSACTION;")
+    cursor.execute("BEGIN IMMEDIATE TRANSACTION;")
     cursor.execute(
         "INSERT OR IGNORE INTO metadata (key, value) VALUES (?, ?)",
         ("created_at", _microseconds_since_epoch()),
@@ -1019,11 +1019,20 @@ def parse(
             result = cursor.fetchone()
             if result != ("ok",):
                 raise sqlite3.DatabaseError("Database integrity check failed")
+        except sqlite3.OperationalError:
+            # Locked or busy: that says nothing about the contents of the
+            # file, and somebody else is using it. Do not treat as corrupt.
+            conn.close()
+            raise
         except sqlite3.DatabaseError:
             conn.close()
 
             logger.warning("Model cache database is corrupt, recreating...")
-            os.remove(full_db_path)
+            try:
+                os.remove(full_db_path)
+            except FileNotFoundError:
+                # Somebody else noticed as well, and was quicker
+                pass
 
             conn = sqlite3.connect(full_db_path, isolation_level=None)
             cursor = conn.cursor()
@@ -1031,7 +1040,7 @@ def parse(
         _check_database_structure(conn)
 
         # Prune the database of entries not hit recently
-        cursor.execute("BEGIN TRANSACTION;")
+        cursor.execute("BEGIN IMMEDIATE TRANSACTION;")
         cutoff_time = _microseconds_since_epoch(timedelta(days=-cache_expiration_days))
         cursor.execute("DELETE FROM models WHERE last_hit < ?", (cutoff_time,))
         # Sometimes Windows time resolution is a bit coarse, so we make
@@ -1069,7 +1078,7 @@ def parse(
         yesterday = _microseconds_since_epoch(timedelta(days=-1))
 
         if always_update_last_hit or last_hit < yesterday:
-            cursor.execute("BEGIN TRANSACTION;")
+            cursor.execute("BEGIN IMMEDIATE TRANSACTION;")
             # Sometimes Windows time resolution is a bit coarse, so we make
             # sure that if we update the last_hit time, it is actually newer
             # than the previous one.
@@ -1103,7 +1112,7 @@ def parse(
 
             # Note that we do an 'INSERT OR REPLACE' because concurrent access
             # might mean two processes/threads try to insert an entry
-            cursor.execute("BEGIN TRANSACTION;")
+            cursor.execute("BEGIN IMMEDIATE TRANSACTION;")
             cursor.execute(
                 "INSERT OR REPLACE INTO models (txt_hash, pymoca_version, data, last_hit) VALUES (?, ?, ?, ?)",
                 (txt_hash, pymoca_version, pickled_data, _microseconds_since_epoch()),
